@@ -242,6 +242,11 @@ func H_C20_Main() {
 	vxScn.files = nil
 	vxScn.stdout, vxScn.stderr, vxScn.exit = nil, nil, 0
 	for i := 0; i < n; i++ {
+		if i > 0 && vx.Choose("f"+strconv.Itoa(i)+".repeat", 2) == 1 {
+			// the same file listed again on the command line
+			vxScn.files = append(vxScn.files, vxScn.files[0])
+			continue
+		}
 		vxScn.files = append(vxScn.files, vxGenFile(i))
 	}
 	vxScn.stdin = []byte(`{"a":"` + string([]byte{vxPlain("doc.c0"), vxPlain("doc.c1")}) + `","s":"x"}`)
